@@ -88,25 +88,25 @@ func Get(id string) *Prop {
 
 // Technique names, per property, the static methods that decide it (MANIFEST "technique").
 var Technique = map[string]string{
-	"C01": "key-table extraction over Put/Get/Delete call shapes, dominance of counter persistence over success exits, value-flow pairing of allocator ids",
-	"C02": "provenance slicing for case-fold sibling agreement, switch/case table extraction, phi-edge operator table, sign-class abstract interpretation of the key codec",
-	"C03": "edge dominance of the entry-node and limit tests over every result append, provenance and sign of the hybrid score product, gating of filtered-result-set adds by the filter",
-	"C05": "operator table by edge dominance, must-pass-through of the filter intersection, comparator direction, sort-before-cut ordering, alias analysis of mutated bitmaps, path-consistent walk of the per-document routine",
-	"C06": "edge dominance and must-pass-through in the merge (set algebra, de-duplication, conjunction gate, sort before every return), clamp/provenance shape of the page slice, partial evaluation of the sort-key comparator",
-	"C04": "writer/reader/enumerator key-table agreement per Storable (exhaustive path enumeration of loop-free methods), enum-switch exhaustiveness, whole-module alias (borrow) analysis from bucket reads to retained fields",
+	"C01": "key-table extraction over Put/Get/Delete call shapes, dominance of counter persistence over success exits, value-flow pairing of allocator ids; repository-specific shape lints on SSA (lost updates on copies, effects skipped by short-circuits, element pointers kept across appends, shared templates and handler variables, pool escapes, value-receiver assignments, owner state changed inside a write transaction, flag-guarded persisted fields)",
+	"C02": "provenance slicing for case-fold sibling agreement, switch/case table extraction, phi-edge operator table, sign-class abstract interpretation of the key codec; repository-specific shape lints on SSA (lost updates on copies, effects skipped by short-circuits, element pointers kept across appends, shared templates and handler variables, pool escapes, value-receiver assignments, owner state changed inside a write transaction, flag-guarded persisted fields)",
+	"C03": "edge dominance of the entry-node and limit tests over every result append, provenance and sign of the hybrid score product, gating of filtered-result-set adds by the filter; repository-specific shape lints on SSA (lost updates on copies, effects skipped by short-circuits, element pointers kept across appends, shared templates and handler variables, pool escapes, value-receiver assignments, owner state changed inside a write transaction, flag-guarded persisted fields)",
+	"C05": "operator table by edge dominance, must-pass-through of the filter intersection, comparator direction, sort-before-cut ordering, alias analysis of mutated bitmaps, path-consistent walk of the per-document routine; repository-specific shape lints on SSA (lost updates on copies, effects skipped by short-circuits, element pointers kept across appends, shared templates and handler variables, pool escapes, value-receiver assignments, owner state changed inside a write transaction, flag-guarded persisted fields)",
+	"C06": "edge dominance and must-pass-through in the merge (set algebra, de-duplication, conjunction gate, sort before every return), clamp/provenance shape of the page slice, partial evaluation of the sort-key comparator; repository-specific shape lints on SSA (lost updates on copies, effects skipped by short-circuits, element pointers kept across appends, shared templates and handler variables, pool escapes, value-receiver assignments, owner state changed inside a write transaction, flag-guarded persisted fields)",
+	"C04": "writer/reader/enumerator key-table agreement per Storable (exhaustive path enumeration of loop-free methods), enum-switch exhaustiveness, whole-module alias (borrow) analysis from bucket reads to retained fields; repository-specific shape lints on SSA (lost updates on copies, effects skipped by short-circuits, element pointers kept across appends, shared templates and handler variables, pool escapes, value-receiver assignments, owner state changed inside a write transaction, flag-guarded persisted fields)",
 	"C07": "typestate of cache transactions on the CFG, must-pass-through (scrap on failure), error-result use analysis over the VTA-reachable write path, goroutine join-chain analysis of select states",
 	"C08": "sibling completeness of flush methods, success-exit dominance, dirty-flag post-dominance, key tables, constant-key write/read pairing, whole-module alias (borrow) analysis from bucket reads to retained fields",
 	"C09": "loop-shared capture analysis of search goroutines, read-only effect analysis over the VTA call graph with path-sensitive must-held locksets, guarded-by table, lock-order graph SCCs, alias (borrow) analysis of search results against bucket memory",
-	"C10": "value-flow pairing of node and vector mutations, key tables (delete ⊇ write), flush completeness",
-	"C11": "path-sensitive lock-state exploration (acquire/release pairing incl. hand-over), lock-order graph, must-pass-through on failure edges, non-blocking reader path",
+	"C10": "value-flow pairing of node and vector mutations, key tables (delete ⊇ write), flush completeness; repository-specific shape lints on SSA (lost updates on copies, effects skipped by short-circuits, element pointers kept across appends, shared templates and handler variables, pool escapes, value-receiver assignments, owner state changed inside a write transaction, flag-guarded persisted fields)",
+	"C11": "path-sensitive lock-state exploration (acquire/release pairing incl. hand-over), lock-order graph, must-pass-through on failure edges, non-blocking reader path; repository-specific shape lints on SSA (lost updates on copies, effects skipped by short-circuits, element pointers kept across appends, shared templates and handler variables, pool escapes, value-receiver assignments, owner state changed inside a write transaction, flag-guarded persisted fields)",
 	"C12": "lock-order graph SCCs, guarded-by table, nil-check typestate and dominance ordering of unregister-before-remove",
-	"C13": "loop-shared capture analysis of the goroutines that carry a destination, backward provenance slice of the hash input and comparator, who-may-store on the server list, every Dest initialiser traced to RendezvousHash over the full list",
-	"C14": "edge dominance (delete only behind verify), provenance of the reported checksum, open-flag constant analysis on the first-chunk path, call order in main, alias (borrow) analysis of the records kept beyond the scan transaction",
-	"C15": "edge dominance of the quota tests over every side-effecting call, value identity of the hashed key and the id stored in each routed request",
-	"C16": "provenance of bucket keys, scan prefixes, directory paths and handler user ids",
-	"C17": "loop-shared capture analysis of fan-out goroutines, dead-store analysis of request templates, sibling cross-check of all RPC handlers (self-route constant, guard, arguments), range-operand and length-comparison provenance of fan-out loops",
-	"C18": "dead-store (lost update) analysis of request structs copied before being bound, who-may-read of the request body, dominance of validation over cluster calls, binding-tag vs Validate comparison tables, enum/type tables, tagged-union dereference guards",
-	"C19": "sign-class abstract interpretation of encoder and decoder, constructor/decoder layout tables (length, constant bytes, offsets, endianness), key-shape disjointness",
+	"C13": "loop-shared capture analysis of the goroutines that carry a destination, backward provenance slice of the hash input and comparator, who-may-store on the server list, every Dest initialiser traced to RendezvousHash over the full list; repository-specific shape lints on SSA (lost updates on copies, effects skipped by short-circuits, element pointers kept across appends, shared templates and handler variables, pool escapes, value-receiver assignments, owner state changed inside a write transaction, flag-guarded persisted fields)",
+	"C14": "edge dominance (delete only behind verify), provenance of the reported checksum, open-flag constant analysis on the first-chunk path, call order in main, alias (borrow) analysis of the records kept beyond the scan transaction; repository-specific shape lints on SSA (lost updates on copies, effects skipped by short-circuits, element pointers kept across appends, shared templates and handler variables, pool escapes, value-receiver assignments, owner state changed inside a write transaction, flag-guarded persisted fields)",
+	"C15": "edge dominance of the quota tests over every side-effecting call, value identity of the hashed key and the id stored in each routed request; repository-specific shape lints on SSA (lost updates on copies, effects skipped by short-circuits, element pointers kept across appends, shared templates and handler variables, pool escapes, value-receiver assignments, owner state changed inside a write transaction, flag-guarded persisted fields)",
+	"C16": "provenance of bucket keys, scan prefixes, directory paths and handler user ids; repository-specific shape lints on SSA (lost updates on copies, effects skipped by short-circuits, element pointers kept across appends, shared templates and handler variables, pool escapes, value-receiver assignments, owner state changed inside a write transaction, flag-guarded persisted fields)",
+	"C17": "loop-shared capture analysis of fan-out goroutines, dead-store analysis of request templates, sibling cross-check of all RPC handlers (self-route constant, guard, arguments), range-operand and length-comparison provenance of fan-out loops; repository-specific shape lints on SSA (lost updates on copies, effects skipped by short-circuits, element pointers kept across appends, shared templates and handler variables, pool escapes, value-receiver assignments, owner state changed inside a write transaction, flag-guarded persisted fields)",
+	"C18": "dead-store (lost update) analysis of request structs copied before being bound, who-may-read of the request body, dominance of validation over cluster calls, binding-tag vs Validate comparison tables, enum/type tables, tagged-union dereference guards; repository-specific shape lints on SSA (lost updates on copies, effects skipped by short-circuits, element pointers kept across appends, shared templates and handler variables, pool escapes, value-receiver assignments, owner state changed inside a write transaction, flag-guarded persisted fields)",
+	"C19": "sign-class abstract interpretation of encoder and decoder, constructor/decoder layout tables (length, constant bytes, offsets, endianness), key-shape disjointness; repository-specific shape lints on SSA (lost updates on copies, effects skipped by short-circuits, element pointers kept across appends, shared templates and handler variables, pool escapes, value-receiver assignments, owner state changed inside a write transaction, flag-guarded persisted fields)",
 	"C20": "affine abstract interpretation of the Plan-9 AVX kernels (stride, coverage, bounds, accumulator folding), constant agreement of bit packing, operator commutativity",
 }
 
